@@ -1256,9 +1256,12 @@ def random_doc(rng: random.Random, out, stats: dict, scale: int, special: str = 
             do({'op': 'SetViews', 'views': views})
     # dedicated cases for the known defects: exactly one special feature per such document
     if special == 'mat':
-        if not vmf.brushes:
+        # address a world brush that has a face (an AddSolid brush may have none): make one if there is none
+        si = next((i for i, b in enumerate(vmf.brushes) if b.sides), None)
+        if si is None:
             do({'op': 'AddPrism', 'e': 0, 'p1': [[0, 0, 0]] * 3, 'p2': [[0, 64, 0]] * 3, 'mat': 'tools/toolsnodraw', 'points': False})
-        do({'op': 'SetSideAttr', 'e': 0, 's': 1, 'f': 1, 'name': 'mat',
+            si = len(vmf.brushes) - 1
+        do({'op': 'SetSideAttr', 'e': 0, 's': si + 1, 'f': 1, 'name': 'mat',
             'val': rng.choice(['tools\\toolsnodraw', 'brick\\new_wall', 'a"b', 'trail\\'])})
     elif special == 'key':
         do({'op': 'SetKey', 'e': 0, 'k': rng.choice(['a\\nb', 'back\\', 'tab\\there']), 'v': 'value'})
